@@ -28,6 +28,9 @@ def malformed(rng):
         if pos == 'end':
             return base + u, 'unknown-char'
         return u, 'unknown-char'
+    if r < 0.33:
+        # a leading double quote is an ordinary character (pizzicato signifier), never a quoting mark
+        return rng.choice(['"4#d', '"X"', '"=2z"', '"4', '""', '"§']), 'quoted'
     if r < 0.36:
         # blanks are characters like any other: a cell padded with a blank is malformed and must come back verbatim
         return rng.choice([' 4D', ' ', '  ', ' 8r', ' =1', ' *clefG2', ' .']), 'blank-padded'
@@ -110,6 +113,28 @@ def doc_level(ctx: Ctx, cs):
     if exc is not None:
         ctx.violation('import-raises', f'import of a document with {len(repl)} malformed cells raised {type(exc).__name__}: {exc}', case)
         return
+    if cs % 3 == 0:
+        # the same damaged text read from a file must give the same errors and tokens
+        import os
+        import kernpy as kp
+        from ..common import SCRATCH_DIR
+        SCRATCH_DIR.mkdir(exist_ok=True)
+        pth = str(SCRATCH_DIR / f'c12-{os.getpid()}.krn')
+        with open(pth, 'w', encoding='utf-8', newline='') as fh:
+            fh.write(x)
+        ctx.mon('file_imports')
+        try:
+            df, ef = kp.load(pth)
+            if [(t_.line, t_.encoding) for t_ in ef] != [(t_.line, t_.encoding) for t_ in errs] or kpx.snapshot(df) != kpx.snapshot(d):
+                ctx.violation('file-import-differs', f'load(file) reports {[(t_.line, t_.encoding) for t_ in ef][:4]}, loads(text) reports '
+                              f'{[(t_.line, t_.encoding) for t_ in errs][:4]} (or the documents differ)', case)
+        except Exception as ex:
+            ctx.violation('file-import-differs', f'load(file) raised {type(ex).__name__}: {ex} but loads(text) succeeded', case)
+        finally:
+            try:
+                os.unlink(pth)
+            except OSError:
+                pass
     partial = {t for t, full in consumption.LOG if not full}
     nonblank = [i for i, ln in enumerate(doc.lines) if ln.kind != 'b']
     stage_of = {li: kk + 1 for kk, li in enumerate(nonblank)}
